@@ -97,13 +97,40 @@ def run(prop, tier):
         res.violation(what, {"kind": "gradual", "scenario": rec["scenario"], "profile": m["profile"],
                              "cfg_index": m["cfg"], "cfg": rec["cfg"], "osu_text": rec["osu_text"],
                              "mismatch": m, "tier": tier})
+    # ---- implementation -> specification: recorded traces validated by TLC
+    trace = os.path.join(common.OUT, "gradual_trace_%s_%s_%d.ndjson" % (prop, tier, os.getpid()))
+    p = common.run_harness(binp, ["gradual-record", trace, "--tier", tier])
+    log(p.stdout.strip().splitlines()[-1])
+
+    def corrupt(events):
+        idx = [i for i, e in enumerate(events) if e["ev"] == "call" and e.get("some")]
+        if not idx:
+            return None
+        i = idx[(common.seed() * 7 + 3) % len(idx)]
+        e = dict(events[i])
+        if (common.seed() + len(idx)) % 2 == 0:
+            e["cnt"] = [e["cnt"][0] + 1] + e["cnt"][1:]
+        else:
+            e["len"] = e["len"] + 1
+        return events[:i] + [e] + events[i + 1:]
+
+    ok, line, evtxt = common.trace_check(res, "TraceGradual", "TraceGradual.cfg", trace, corrupt, "%s_%s" % (prop, tier))
+    sessions = sum(1 for l in open(trace) if '"ev":"reset"' in l or '"ev":"seq"' in l)
+    if ok:
+        res.cov["traces_validated_against_impl"] += sessions
+    else:
+        events = [json.loads(l) for l in open(trace)]
+        start = max(i for i in range(line) if events[i]["ev"] == "reset")
+        res.violation("trace of the real calculators rejected by TraceGradual at event %d: %s (session: %s)" % (
+            line, evtxt, events[start].get("label")),
+            {"kind": "gradual-trace", "events": events[start:line], "label": events[start].get("label")})
     res.assumptions += [
         "exhaustive for maps <= %d objects over the per-mode alphabet and call sequences <= %d calls; larger maps only via traces" % (maxlen, maxcalls),
         "numbers come from the one-shot code path of rosu-pp itself (differential, Debug text equality = bitwise for finite floats)",
         "concretiser profiles validated by the count-algebra comparison (C14)",
         "release profile (usize underflow wraps); known-finding classes enabled: %s" % ",".join(known_on),
     ]
-    for f in (cfgp, scen):
+    for f in (cfgp, scen, trace):
         try:
             os.remove(f)
         except OSError:
